@@ -397,7 +397,8 @@ impl MessageType for ResponseHead {
         // Remove CL value if 0 now that all headers and HTTP/1.0 special cases are processed.
         // Protects against some request smuggling attacks.
         // See https://github.com/actix/actix-web/issues/2767.
-        if length.is_zero() {
+        let declared_empty = length.is_zero();
+        if declared_empty {
             length = PayloadLength::None;
         }
 
@@ -415,8 +416,9 @@ impl MessageType for ResponseHead {
             // switching protocol or connect
             PayloadType::Stream(PayloadDecoder::eof())
         } else {
-            // for HTTP/1.0 read to eof and close connection
-            if msg.version == Version::HTTP_10 {
+            // for HTTP/1.0 read to eof and close connection, unless the response declared that
+            // it has no body
+            if msg.version == Version::HTTP_10 && !declared_empty {
                 msg.set_connection_type(ConnectionType::Close);
                 PayloadType::Payload(PayloadDecoder::eof())
             } else {
